@@ -838,6 +838,32 @@ fn reshaped_case(case: &Reshaped, ctx: &mut Ctx) -> CaseResult {
             );
             if accepted {
                 ctx.label("reshaped-accepted");
+                // Whatever shape was accepted, it is now a proof that verifies, and the statement
+                // says that changing any of its path elements makes verification return false:
+                // an element the verifier never looks at (e.g. one beyond the root of a tree of
+                // the claimed size) breaks that.
+                for j in 0..path.len() {
+                    let mut changed = path.clone();
+                    changed[j][j % 32] ^= 1 << (j % 8);
+                    let still = catch(|| {
+                        Proof::unchecked()
+                            .audit_path(flat(&changed))
+                            .leaf_index(index)
+                            .tree_size(nodes)
+                            .try_into_proof()
+                            .ok()
+                            .map(|p| p.verify(&leaves[i], root))
+                    });
+                    ctx.label("accepted-shape-element-mutated");
+                    vensure!(
+                        !matches!(still, Ok(Some(true))),
+                        "unsound-accept:path-element-ignored",
+                        "reshaped proof (leaf {i}/{n}: index {index}, nodes {nodes}, path {} elems, {:?}) verifies, \
+                         and still verifies after changing path element {j}",
+                        path.len(),
+                        case.reshape
+                    );
+                }
             }
         }
     }
